@@ -10,17 +10,21 @@
            the ground truth is this construction, not CircSem. Both argument orders occur.
            L2 DefGen: a definite answer must be "equal" when a global phase is allowed and "notequal" when it is not;
            the tensor comparisons must answer false, the arity tests true
+   pairn : two circuits with ancilla initialisation / post-selection: circuit-derived maps n -> m that are not square and not
+           unitary. S1, S2 = the tensors of CircSemV, arity = number of open inputs and outputs. The tensor-based checkers and the
+           arity tests are judged in full (DefTensor, DimOK); of the rewriting-based checker only "not equal" answers (DefNotEqual).
    eq    : equal_circuit_with_options / equal_circuit / equal_graph_with_options / equal_graph
            (answer equal/notequal/unknown; phase = was a global phase allowed, TRUE for the two default wrappers)
            L2 Def: a definite answer is never wrong
    eqt   : equal_circuit_tensor / equal_graph_tensor     L2 DefTensor: true exactly for identical tensors
    eqdim : equal_circuit_dim / equal_graph_dim           L2: true exactly for equal arities *)
 EXTENDS TraceLib, ToGraph, Equality, FiniteSets, FiniteSetsExt
-VARIABLES l, ar, s1, s2, gen, viol, drift, stats
-vars == <<l, ar, s1, s2, gen, viol, drift, stats>>
-Init == l = 1 /\ ar = TRUE /\ s1 = <<>> /\ s2 = <<>> /\ gen = FALSE /\ viol = <<>> /\ drift = <<>>
+VARIABLES l, ar, s1, s2, gen, nonu, viol, drift, stats
+vars == <<l, ar, s1, s2, gen, nonu, viol, drift, stats>>
+Init == l = 1 /\ ar = TRUE /\ s1 = <<>> /\ s2 = <<>> /\ gen = FALSE /\ nonu = FALSE /\ viol = <<>> /\ drift = <<>>
         /\ stats = [pairs |-> 0, answers |-> 0, equal |-> 0, notequal |-> 0, unknown |-> 0, nontrivial |-> 0,
-                    graph_pairs |-> 0, generic_phase_pairs |-> 0, graph_answers |-> 0, default_wrapper |-> 0, dim_calls |-> 0]
+                    graph_pairs |-> 0, generic_phase_pairs |-> 0, graph_answers |-> 0, default_wrapper |-> 0, dim_calls |-> 0,
+                    nonunitary_pairs |-> 0, nonunitary_equal_answers |-> 0]
 Arity == ar
 \* the pair differs exactly by a global phase that is not 1
 DefGen(ret, phase) == ret = "unknown" \/ (IF phase THEN ret = "equal" ELSE ret = "notequal")
@@ -28,37 +32,45 @@ B(x) == IF x THEN 1 ELSE 0
 Step(e) ==
   CASE e.k = "pairc" ->
          LET a == CircFromAbs(e.c1)  b == CircFromAbs(e.c2) IN
-         /\ ar' = (a.n = b.n) /\ s1' = CircSem(a) /\ s2' = CircSem(b) /\ gen' = FALSE
+         /\ ar' = (a.n = b.n) /\ s1' = CircSem(a) /\ s2' = CircSem(b) /\ gen' = FALSE /\ nonu' = FALSE
          /\ stats' = [stats EXCEPT !.pairs = @ + 1] /\ UNCHANGED <<viol, drift>>
+    [] e.k = "pairn" ->
+         LET a == CircSemV(CircFromAbs(e.c1), <<>>)  b == CircSemV(CircFromAbs(e.c2), <<>>) IN
+         /\ ar' = (Len(a.inq) = Len(b.inq) /\ Len(a.outq) = Len(b.outq)) /\ s1' = a.T /\ s2' = b.T /\ gen' = FALSE /\ nonu' = TRUE
+         /\ stats' = [stats EXCEPT !.pairs = @ + 1, !.nonunitary_pairs = @ + 1] /\ UNCHANGED <<viol, drift>>
     [] e.k = "pairp" ->
-         /\ ar' = TRUE /\ s1' = <<>> /\ s2' = <<>> /\ gen' = TRUE
+         /\ ar' = TRUE /\ s1' = <<>> /\ s2' = <<>> /\ gen' = TRUE /\ nonu' = FALSE
          /\ viol' = IF (e.ph[1] * 4) % e.ph[2] # 0 THEN viol ELSE Append(viol, <<l, "HarnessGenericPhase">>)
          /\ stats' = [stats EXCEPT !.pairs = @ + 1, !.generic_phase_pairs = @ + 1] /\ UNCHANGED <<drift>>
     [] e.k = "pairg" ->
          LET a == FromAbs(e.g1)  b == FromAbs(e.g2) IN
-         /\ ar' = SameArity(a, b) /\ s1' = Den(a) /\ s2' = Den(b) /\ gen' = FALSE
+         /\ ar' = SameArity(a, b) /\ s1' = Den(a) /\ s2' = Den(b) /\ gen' = FALSE /\ nonu' = FALSE
          /\ stats' = [stats EXCEPT !.pairs = @ + 1, !.graph_pairs = @ + 1] /\ UNCHANGED <<viol, drift>>
     [] e.k = "eq" ->
          /\ viol' = IF e.ret = "panic" THEN Append(viol, <<l, "NoPanic", e.fn>>)
                     ELSE IF gen THEN (IF DefGen(e.ret, e.phase) THEN viol ELSE Append(viol, <<l, "DefGen", e.fn, e.ret>>))
+                    \* maps that are not unitary: the rewriting-based test (S1^dagger ; S2 = identity) presupposes unitaries, so an "equal"
+                    \* answer is only counted; "not equal" must still be right: the arities differ or the tensors do
+                    ELSE IF nonu THEN (IF e.ret = "notequal" => (~Arity \/ s1 # s2) THEN viol ELSE Append(viol, <<l, "DefNotEqual", e.fn, e.ret>>))
                     ELSE IF Def(e.ret, Arity, s1, s2, e.phase) THEN viol ELSE Append(viol, <<l, "Def", e.fn, e.ret>>)
          \* information only: the checker could not decide a pair that is in fact equal / different
-         /\ drift' = IF ~gen /\ e.ret = "unknown" /\ Arity /\ s1 = s2 THEN Append(drift, <<l, "UnknownButEqual">>) ELSE drift
+         /\ drift' = IF ~gen /\ ~nonu /\ e.ret = "unknown" /\ Arity /\ s1 = s2 THEN Append(drift, <<l, "UnknownButEqual">>) ELSE drift
          /\ stats' = [stats EXCEPT !.answers = @ + 1, !.equal = @ + (IF e.ret = "equal" THEN 1 ELSE 0),
                                    !.notequal = @ + (IF e.ret = "notequal" THEN 1 ELSE 0),
                                    !.unknown = @ + (IF e.ret = "unknown" THEN 1 ELSE 0),
                                    !.nontrivial = @ + (IF e.ret # "unknown" THEN 1 ELSE 0),
                                    !.default_wrapper = @ + B(e.fn \in {"graph_default", "circuit_default"}),
-                                   !.graph_answers = @ + B(e.fn \in {"graph", "graph_default", "graph_simplified"})]
-         /\ UNCHANGED <<ar, s1, s2, gen>>
+                                   !.graph_answers = @ + B(e.fn \in {"graph", "graph_default", "graph_simplified"}),
+                                   !.nonunitary_equal_answers = @ + B(nonu /\ e.ret = "equal")]
+         /\ UNCHANGED <<ar, s1, s2, gen, nonu>>
     [] e.k = "eqt" ->
          /\ viol' = IF e.res = "panic" THEN Append(viol, <<l, "NoPanic", e.fn>>)
                     ELSE IF gen THEN (IF e.ret = FALSE THEN viol ELSE Append(viol, <<l, "DefTensorGen", e.fn>>))
                     ELSE IF DefTensor(e.ret, Arity, s1, s2) THEN viol ELSE Append(viol, <<l, "DefTensor", e.fn>>)
-         /\ stats' = [stats EXCEPT !.answers = @ + 1, !.nontrivial = @ + 1] /\ UNCHANGED <<ar, s1, s2, gen, drift>>
+         /\ stats' = [stats EXCEPT !.answers = @ + 1, !.nontrivial = @ + 1] /\ UNCHANGED <<ar, s1, s2, gen, nonu, drift>>
     [] e.k = "eqdim" ->
          /\ viol' = IF e.res = "ok" /\ e.ret = Arity THEN viol ELSE Append(viol, <<l, "DimOK", e.fn>>)
-         /\ stats' = [stats EXCEPT !.answers = @ + 1, !.dim_calls = @ + 1] /\ UNCHANGED <<ar, s1, s2, gen, drift>>
+         /\ stats' = [stats EXCEPT !.answers = @ + 1, !.dim_calls = @ + 1] /\ UNCHANGED <<ar, s1, s2, gen, nonu, drift>>
 Next == \/ /\ l <= NLines /\ Step(Rec[l]) /\ l' = l + 1
-        \/ /\ l = NLines + 1 /\ Report(l, viol, drift, stats) /\ l' = l + 1 /\ UNCHANGED <<ar, s1, s2, gen, viol, drift, stats>>
+        \/ /\ l = NLines + 1 /\ Report(l, viol, drift, stats) /\ l' = l + 1 /\ UNCHANGED <<ar, s1, s2, gen, nonu, viol, drift, stats>>
 =============================================================================
